@@ -1,5 +1,6 @@
 import QRV.Props.C16
 import QRV.Lemmas.KanjiFinite
+import QRV.Lemmas.Codec
 /-
 C17 — data-mode codecs: exact inverses, standard bit layout, Shift JIS kanji table.
 
@@ -10,6 +11,7 @@ The kanji tables are compared with a reference generated from CPython's cp932 co
 -/
 namespace QRV.Props.C17
 open QRV QRV.Model.Bits QRV.Model.Codec QRV.Spec.Bits QRV.Spec.Codec QRV.Props.C16 QRV.Lemmas.Kanji
+open QRV.Lemmas.Codec
 
 /-- read cursor in bits -/
 def cursor (b : Buffer) : Nat := 8 * b.offset + b.read
@@ -20,10 +22,12 @@ def unread (b : Buffer) : List Bool := (unpack b.buf.toList).drop (cursor b)
 /-! ### character classes and tables (complete finite ranges) -/
 
 theorem numeric_class (ch : Nat) (h : ch < 256) : isNumeric ch = true ↔ (48 ≤ ch ∧ ch ≤ 57) := by
-  sorry
+  have _ := h  -- holds for every ch
+  exact isNumeric_iff ch
 
 theorem alnum_class (ch : Nat) (h : ch < 256) : alnumIdx ch = alnumValue ch := by
-  sorry
+  have _ := h  -- holds for every ch
+  exact alnumIdx_eq_alnumValue ch
 
 /-- the kanji decode table is Shift JIS (Windows-31J) on all 8,192 codes: an assigned code decodes
 to the reference character, and every other code (unassigned cell, or beyond the table) is rejected
@@ -31,45 +35,75 @@ by `decodeKanji` -/
 theorem kanji_decode_is_sjis (code : Nat) (h : code < 8192) :
     (refAt code ≠ 0 → decodeKanjiCode code = some (refAt code)) ∧
     (refAt code = 0 → decodeKanjiCode code = none ∨ decodeKanjiCode code = some 0) := by
-  sorry
+  rcases decode_cases code h with h1 | h2
+  · exact ⟨fun _ => h1.2, fun h0 => Or.inr (by rw [h1.2, h0])⟩
+  · exact ⟨fun hne => absurd h2.2 hne, fun _ => Or.inl h2.1⟩
 
 /-- the compaction formula: an assigned code is ((hi - 0x81 or 0xC1) * 0xC0 + lo - 0x40) of a
 double byte with lead byte in 0x81-0x9F / 0xE0-0xEB -/
 theorem kanji_code_is_compaction (code : Nat) (h : code < 8192) (ha : refAt code ≠ 0) :
     let (hi, lo) := sjisOf code
     ((0x81 ≤ hi ∧ hi ≤ 0x9F) ∨ (0xE0 ≤ hi ∧ hi ≤ 0xEB)) ∧ compact hi lo = code := by
-  sorry
+  have hA := assigned_area code h
+  simp only [areaOK, Bool.or_eq_true, beq_iff_eq] at hA
+  rcases hA with h0 | h1
+  · exact absurd h0 ha
+  · generalize sjisOf code = p at h1 ⊢
+    obtain ⟨hi, lo⟩ := p
+    simp only [Bool.and_eq_true, Bool.or_eq_true, decide_eq_true_eq, beq_iff_eq] at h1 ⊢
+    exact ⟨h1.1.1.1.1, h1.2⟩
 
 /-- the encoder returns the smallest code of a character, and only for characters that have one -/
 theorem kanji_encode_is_least_inverse (r : Nat) :
     (∀ c, encodeKanjiRune r = some c → c < 8192 ∧ refAt c = r ∧ r ≠ 0 ∧ ∀ c' < 8192, refAt c' = r → c ≤ c') ∧
     (encodeKanjiRune r = none → ∀ c < 8192, refAt c ≠ r ∨ r = 0) := by
-  sorry
+  refine ⟨fun c hc => ?_, fun hn c hc => ?_⟩
+  · obtain ⟨h1, h2, h3⟩ := encode_some r c hc
+    refine ⟨h1, h2, h3, fun c' hc' hr => ?_⟩
+    obtain ⟨c₀, e₀, hle⟩ := encode_least c' hc' (by rw [hr]; exact h3)
+    rw [hr, hc] at e₀
+    cases e₀
+    exact hle
+  · by_cases hr : refAt c = r
+    · by_cases h0 : r = 0
+      · exact Or.inr h0
+      · obtain ⟨c₀, e₀, _⟩ := encode_least c hc (by rw [hr]; exact h0)
+        rw [hr, hn] at e₀
+        cases e₀
+    · exact Or.inl hr
 
 /-! ### encoders: standard layout, rejection exactly of foreign characters -/
 
 theorem encodeNumeric_layout (b : Buffer) (h : Inv b) (data : List Nat) (hd : ∀ ch ∈ data, isNumeric ch = true) :
     ∃ b', encodeNumeric b data = .ok b' ∧ Inv b' ∧ abs b' = abs b ++ numericBits data ∧
       b'.offset = b.offset ∧ b'.read = b.read := by
-  sorry
+  unfold encodeNumeric
+  rw [if_neg (by simpa using hd)]
+  exact encodeNumeric_go data b h
 
 theorem encodeNumeric_rejects (b : Buffer) (data : List Nat) (hd : ∃ ch ∈ data, isNumeric ch = false) :
     (encodeNumeric b data).isErr = true := by
-  sorry
+  unfold encodeNumeric
+  rw [if_pos (by simpa using hd)]
+  rfl
 
 theorem encodeAlphanumeric_layout (b : Buffer) (h : Inv b) (data : List Nat) (hd : ∀ ch ∈ data, isAlphanumeric ch = true) :
     ∃ b', encodeAlphanumeric b data = .ok b' ∧ Inv b' ∧ abs b' = abs b ++ alnumBits data ∧
       b'.offset = b.offset ∧ b'.read = b.read := by
-  sorry
+  unfold encodeAlphanumeric
+  rw [if_neg (by simpa using hd)]
+  exact encodeAlphanumeric_go data b h
 
 theorem encodeAlphanumeric_rejects (b : Buffer) (data : List Nat) (hd : ∃ ch ∈ data, isAlphanumeric ch = false) :
     (encodeAlphanumeric b data).isErr = true := by
-  sorry
+  unfold encodeAlphanumeric
+  rw [if_pos (by simpa using hd)]
+  rfl
 
 theorem encodeBytes_layout (b : Buffer) (h : Inv b) (data : List Nat) :
     ∃ b', encodeBytes b data = .ok b' ∧ Inv b' ∧ abs b' = abs b ++ byteBits data ∧
       b'.offset = b.offset ∧ b'.read = b.read := by
-  sorry
+  exact encodeBytes_go data b h
 
 /-- kanji: one 13-bit code per character, in order; rejected exactly when some character has no code -/
 theorem encodeKanji_layout (b : Buffer) (h : Inv b) (data : List Nat)
@@ -77,12 +111,12 @@ theorem encodeKanji_layout (b : Buffer) (h : Inv b) (data : List Nat)
     ∃ b', encodeKanji b data = .ok b' ∧ Inv b' ∧
       abs b' = abs b ++ kanjiBits ((Model.Utf8.runes data).map fun r => (encodeKanjiRune r).getD 0) ∧
       b'.offset = b.offset ∧ b'.read = b.read := by
-  sorry
+  exact encodeKanji_go _ b h hd
 
 theorem encodeKanji_rejects (b : Buffer) (h : Inv b) (data : List Nat)
     (hd : ∃ r ∈ Model.Utf8.runes data, isKanji r = false) :
     (encodeKanji b data).isErr = true := by
-  sorry
+  exact encodeKanji_go_rejects _ b h hd
 
 /-! ### decoders: inverse of the encoders, rejection of out-of-range groups -/
 
@@ -92,19 +126,19 @@ theorem decodeNumeric_inverse (b : Buffer) (h : Inv b) (hr : b.read < 8) (data :
     (hd : ∀ ch ∈ data, isNumeric ch = true) (rest : List Bool) (hu : unread b = numericBits data ++ rest) :
     ∃ b', decodeNumeric b data.length = .ok (b', data) ∧ b'.buf = b.buf ∧ b'.wrote = b.wrote ∧ b'.read < 8 ∧
       cursor b' = cursor b + (numericBits data).length := by
-  sorry
+  simpa [decodeNumeric, cursor, cur] using decodeNumeric_go data b #[] rest h hr hd hu
 
 theorem decodeAlphanumeric_inverse (b : Buffer) (h : Inv b) (hr : b.read < 8) (data : List Nat)
     (hd : ∀ ch ∈ data, isAlphanumeric ch = true) (rest : List Bool) (hu : unread b = alnumBits data ++ rest) :
     ∃ b', decodeAlphanumeric b data.length = .ok (b', data) ∧ b'.buf = b.buf ∧ b'.wrote = b.wrote ∧ b'.read < 8 ∧
       cursor b' = cursor b + (alnumBits data).length := by
-  sorry
+  simpa [decodeAlphanumeric, cursor, cur] using decodeAlphanumeric_go data b #[] rest h hr hd hu
 
 theorem decodeBytes_inverse (b : Buffer) (h : Inv b) (hr : b.read < 8) (data : List Nat)
     (hd : ∀ ch ∈ data, ch < 256) (rest : List Bool) (hu : unread b = byteBits data ++ rest) :
     ∃ b', decodeBytes b data.length = .ok (b', data) ∧ b'.buf = b.buf ∧ b'.wrote = b.wrote ∧ b'.read < 8 ∧
       cursor b' = cursor b + (byteBits data).length := by
-  sorry
+  simpa [decodeBytes, cursor, cur] using decodeBytes_go data b #[] rest h hr hd hu
 
 /-- kanji, at the level of codes: decoding the 13-bit codes of assigned characters yields the UTF-8
 encoding of those characters -/
@@ -112,7 +146,7 @@ theorem decodeKanji_inverse (b : Buffer) (h : Inv b) (hr : b.read < 8) (codes : 
     (hc : ∀ c ∈ codes, c < 8192 ∧ refAt c ≠ 0) (rest : List Bool) (hu : unread b = kanjiBits codes ++ rest) :
     ∃ b', decodeKanji b codes.length = .ok (b', codes.flatMap fun c => Model.Utf8.encodeRune (refAt c)) ∧
       b'.buf = b.buf ∧ b'.wrote = b.wrote ∧ b'.read < 8 ∧ cursor b' = cursor b + 13 * codes.length := by
-  sorry
+  simpa [decodeKanji, cursor, cur] using decodeKanji_go codes b #[] rest h hr hc hu
 
 /-- out-of-range groups are rejected: a first 10-bit group ≥ 1000 (resp. 7-bit ≥ 100, 4-bit ≥ 10) -/
 theorem decodeNumeric_rejects (b : Buffer) (h : Inv b) (hr : b.read < 8) (n v : Nat) (rest : List Bool)
@@ -120,30 +154,34 @@ theorem decodeNumeric_rejects (b : Buffer) (h : Inv b) (hr : b.read < 8) (n v : 
           else if n = 2 then v ≥ 100 ∧ v < 128 ∧ unread b = bitsMSB v 7 ++ rest
           else n = 1 ∧ v ≥ 10 ∧ v < 16 ∧ unread b = bitsMSB v 4 ++ rest) :
     (decodeNumeric b n).isErr = true := by
-  sorry
+  exact decodeNumeric_go_rejects b h hr #[] n v rest hv
 
 theorem decodeAlphanumeric_rejects (b : Buffer) (h : Inv b) (hr : b.read < 8) (n v : Nat) (rest : List Bool)
     (hv : if n ≥ 2 then v ≥ 45 * 45 ∧ v < 2048 ∧ unread b = bitsMSB v 11 ++ rest
           else n = 1 ∧ v ≥ 45 ∧ v < 64 ∧ unread b = bitsMSB v 6 ++ rest) :
     (decodeAlphanumeric b n).isErr = true := by
-  sorry
+  exact decodeAlphanumeric_go_rejects b h hr #[] n v rest hv
 
 /-- an unassigned kanji code (or one beyond the table) is rejected, not answered with invented data -/
 theorem decodeKanji_rejects_unassigned (b : Buffer) (h : Inv b) (hr : b.read < 8) (n code : Nat) (hn : 0 < n)
     (hcode : code < 8192) (hu0 : refAt code = 0) (rest : List Bool) (hu : unread b = bitsMSB code 13 ++ rest) :
     (decodeKanji b n).isErr = true := by
-  sorry
+  exact decodeKanji_go_rejects b h hr #[] n code hn hcode hu0 rest hu
 
 /-- whatever the numeric decoder accepts consists of digits (needed by C07) -/
 theorem decodeNumeric_sound (b b' : Buffer) (n : Nat) (data : List Nat) (h : Inv b) (hr : b.read < 8)
     (hd : decodeNumeric b n = .ok (b', data)) :
     data.length = n ∧ ∀ ch ∈ data, isNumeric ch = true := by
-  sorry
+  have _ := h; have _ := hr  -- not needed: the loop alone guarantees it
+  obtain ⟨h1, h2⟩ := decodeNumeric_go_sound n b #[] b' data hd
+  exact ⟨by simpa using h1, fun ch hch => (h2 ch hch).resolve_left (by simp)⟩
 
 theorem decodeAlphanumeric_sound (b b' : Buffer) (n : Nat) (data : List Nat) (h : Inv b) (hr : b.read < 8)
     (hd : decodeAlphanumeric b n = .ok (b', data)) :
     data.length = n ∧ ∀ ch ∈ data, isAlphanumeric ch = true := by
-  sorry
+  have _ := h; have _ := hr  -- not needed: the loop alone guarantees it
+  obtain ⟨h1, h2⟩ := decodeAlphanumeric_go_sound n b #[] b' data hd
+  exact ⟨by simpa using h1, fun ch hch => (h2 ch hch).resolve_left (by simp)⟩
 
 /-! non-vacuity -/
 example : encodeKanjiRune 0x65E5 = some 3642 ∧ refAt 3642 = 0x65E5 := by decide +kernel
